@@ -1,7 +1,8 @@
 #!/bin/bash
 # usage: confirm_seed.sh <PROP> <k> [demo-dir-relative-to-repo-root (default .)] [go test tags]
-# Confirms a seeded change in the scratch worktree /tmp/seed-<PROP>, then applies it to /repo,
-# runs the property's quick check, undoes it, and files it under /verif/seeded/<PROP>-<k>/.
+# Confirms a seeded change in the scratch worktree /tmp/seed-<PROP> (build, suite, demo on clean and changed tree),
+# runs the property's quick check against that changed worktree, and files it under /verif/seeded/<PROP>-<k>/.
+# Safe to run for several properties in parallel (per-property log files).
 set -u
 P=$1; K=$2; DDIR=${3:-.}; TAGS=${4:-}
 W=/tmp/seed-$P; O=/tmp/seed-$P-out
@@ -13,40 +14,41 @@ TEST=$(grep -o 'func Test[A-Za-z0-9_]*' $O/demo$K\_test.go | head -1 | sed 's/fu
 echo "== demo test: $TEST (dir $DDIR, tags '$TAGS')"
 # clean tree: demo must pass
 cp $O/demo${K}_test.go $DDIR/zz_demo${K}_test.go
-go test $TAGARG -count=1 -run "^$TEST\$" ./$DDIR > /tmp/seed-clean.log 2>&1; CLEAN=$?
+go test $TAGARG -count=1 -run "^$TEST\$" ./$DDIR > /tmp/seed-clean-$P.log 2>&1; CLEAN=$?
 rm -f $DDIR/zz_demo${K}_test.go
 git apply $O/patch$K.diff || { echo "PATCH DOES NOT APPLY"; exit 3; }
-go build ./... > /tmp/seed-build.log 2>&1; BUILD=$?
-go test -count=1 ./... > /tmp/seed-suite.log 2>&1
-SUITE_FAILS=$(grep -E "^(FAIL|---) " /tmp/seed-suite.log | grep -v journald | grep -v "^FAIL$" | grep -v TestWriteReturnsNoOfWrittenBytes | grep -v TestSamplers | wc -l)
-go test -count=1 -tags binary_log . ./internal/cbor > /tmp/seed-suite-b.log 2>&1; SUITEB=$?
+go build ./... > /tmp/seed-build-$P.log 2>&1; BUILD=$?
+go test -count=1 ./... > /tmp/seed-suite-$P.log 2>&1
+SUITE_FAILS=$(grep -E "^(FAIL|---) " /tmp/seed-suite-$P.log | grep -v journald | grep -v "^FAIL$" | grep -v TestWriteReturnsNoOfWrittenBytes | grep -v TestSamplers | wc -l)
+go test -count=1 -tags binary_log . ./internal/cbor > /tmp/seed-suite-b-$P.log 2>&1; SUITEB=$?
 cp $O/demo${K}_test.go $DDIR/zz_demo${K}_test.go
-go test $TAGARG -count=1 -run "^$TEST\$" ./$DDIR > /tmp/seed-mut.log 2>&1; MUT=$?
+go test $TAGARG -count=1 -run "^$TEST\$" ./$DDIR > /tmp/seed-mut-$P.log 2>&1; MUT=$?
 rm -f $DDIR/zz_demo${K}_test.go
+# run the check against the changed tree (the scratch worktree with the patch applied; /repo itself is not
+# touched, so a concurrently running check of /repo is not disturbed)
+mkdir -p /tmp/seed-ev-$P/evidence; cp /verif/known_findings.txt /tmp/seed-ev-$P/
+CP=$P; [ "$P-$K" = "C01-3" ] && CP=C05
+ZL_REPO=$W ZL_VERIF=/tmp/seed-ev-$P /verif/bin/zlcheck -property $CP -tier quick > /tmp/seed-check-$P.log 2>&1; RC=$?
+rm -rf /tmp/seed-ev-$P
 git checkout -q -- . ; git clean -fdq
 echo "build=$BUILD suite_fail_lines=$SUITE_FAILS suite_binarylog_rc=$SUITEB demo_on_clean_rc=$CLEAN demo_on_mutant_rc=$MUT"
 if [ $BUILD -ne 0 ] || [ $SUITE_FAILS -ne 0 ] || [ $CLEAN -ne 0 ] || [ $MUT -eq 0 ]; then
-  echo "NOT CONFIRMED"; grep -E "^(FAIL|---) " /tmp/seed-suite.log | head; tail -5 /tmp/seed-mut.log; exit 1
+  echo "NOT CONFIRMED"; grep -E "^(FAIL|---) " /tmp/seed-suite-$P.log | head; tail -5 /tmp/seed-mut-$P.log; exit 1
 fi
-# run the check against /repo with the patch applied
-cd /repo && git apply $O/patch$K.diff || { echo "does not apply to /repo"; exit 3; }
-mkdir -p /tmp/seed-ev/evidence; cp /verif/known_findings.txt /tmp/seed-ev/
-ZL_VERIF=/tmp/seed-ev /verif/bin/zlcheck -property $P -tier quick > /tmp/seed-check.log 2>&1; RC=$?
-git -C /repo checkout -q -- .
-DET="missed"; [ $RC -eq 1 ] && grep -q "VIOLATION property=$P" /tmp/seed-check.log && DET="detected"
-echo "check rc=$RC => $DET"; grep "^REPORT" /tmp/seed-check.log | cut -c1-260 | head -5
+DET="missed"; [ $RC -eq 1 ] && grep -q "VIOLATION property=$P" /tmp/seed-check-$P.log && DET="detected"
+echo "check rc=$RC => $DET"; grep "^REPORT" /tmp/seed-check-$P.log | cut -c1-260 | head -5
 D=/verif/seeded/$P-${OUTK:-$K}; mkdir -p $D
 cp $O/patch$K.diff $D/patch.diff; cp $O/demo${K}_test.go $D/demo_test.go; cp $O/notes$K.txt $D/notes.txt 2>/dev/null
 python3 - "$P" "$K" "$DET" "$DDIR" "$TAGS" "$TEST" <<'PY'
 import json,sys,re,os
 p,k,det,ddir,tags,test=sys.argv[1:7]
-reports=[l.strip()[:400] for l in open('/tmp/seed-check.log') if l.startswith('REPORT')]
+reports=[l.strip()[:400] for l in open('/tmp/seed-check-%s.log'%p) if l.startswith('REPORT')]
 notes=open('/verif/seeded/%s-%s/notes.txt'%(p,os.environ.get('OUTK',k))).read() if True else ''
 meta={"property":p,"source":"independent sub-agent given only the property text and a scratch worktree",
  "breaks":notes.strip().split('\n')[0][:300],
  "needs_to_manifest":notes.strip()[:1200],
  "demo":{"file":"demo_test.go","place_in":ddir,"test":test,"tags":tags},
  "confirmed":{"worktree":"/tmp/seed-%s (removed afterwards)"%p,"build":"go build ./... ok","suite":"go test ./... unchanged (journald socket test fails with and without)","suite_binary_log":"go test -tags binary_log . ./internal/cbor","demo_on_clean":"pass","demo_with_change":"fail"},
- "check":{"cmd":"bin/zlcheck -property %s -tier quick (patch applied to /repo, then git checkout -- .)"%p,"outcome":det,"reports":reports[:6]}}
+ "check":{"cmd":"bin/zlcheck -property %s -tier quick (run on a scratch worktree of /repo with the patch applied)"%p,"outcome":det,"reports":reports[:6]}}
 json.dump(meta,open('/verif/seeded/%s-%s/meta.json'%(p,os.environ.get('OUTK',k)),'w'),indent=1)
 PY
